@@ -349,7 +349,10 @@ class _UTF8String(DERType):
         if constructed:
             raise ASN1DecodeError('UTF8 STRING should not be constructed')
 
-        return content.decode('utf-8')
+        try:
+            return content.decode('utf-8')
+        except UnicodeDecodeError:
+            raise ASN1DecodeError('UTF8 STRING is not valid UTF-8') from None
 
 
 @DERTag(SEQUENCE, (list, tuple), constructed=True)
